@@ -580,15 +580,19 @@ func lessOrder(a, b *float64) (less, eq bool) {
 	return *a < *b, *a == *b
 }
 
+// effectiveLabels: the endpoint's own labels, then for every other key the value of the FIRST profile
+// in the endpoint's ProfileIDs order that defines it (label_inheritance_index.go itemData.GetHandle).
 func (s *sys) effectiveLabels(e epRec) map[string]string {
 	m := map[string]string{}
-	for _, p := range e.profs {
-		for k, v := range s.plabels[p] {
-			m[k] = v
-		}
-	}
 	for k, v := range e.labels {
 		m[k] = v
+	}
+	for _, p := range e.profs {
+		for k, v := range s.plabels[p] {
+			if _, ok := m[k]; !ok {
+				m[k] = v
+			}
+		}
 	}
 	return m
 }
